@@ -315,7 +315,9 @@ func TestC13(t *testing.T) {
 			verdictEvalAndClean(t, cfgCase{C: rc.Members[0].Files[0], Style: rc.Members[0].Style})
 			return
 		}
+		behCompileErrIsViolation = strings.HasPrefix(storedKey(path), "compile:")
 		behBatch(t, rc, c13NonTrivial, c13Check, nil)
+		behCompileErrIsViolation = false
 	}
 	if p := os.Getenv("VERIF_REPLAY"); p != "" {
 		stored(p)
